@@ -178,7 +178,7 @@ namespace fastscapelib
         {
             // TODO: validate value
             m_slope_exp = value;
-            m_linear = (std::fabs(value) - 1) <= std::numeric_limits<double>::epsilon();
+            m_linear = std::fabs(value - 1) <= std::numeric_limits<double>::epsilon();
 
             if (!m_linear && !m_flow_graph.single_flow())
             {
